@@ -191,6 +191,21 @@ def body_value(case):
     err = np.abs(mag - exp)
     check(np.all(err <= _rel(case) * np.abs(exp)), "value:value", f"got {np.ravel(mag)[:3].tolist()} expected {np.ravel(exp)[:3].tolist()}",
           observed=dict(got=np.ravel(mag)[:3].tolist(), expected=np.ravel(np.asarray(exp))[:3].tolist()))
+    if case["wl_units"] is None and np.ndim(case["wl"]) == 1 and case["spec_units"] is None:
+        # the same wavelength array object, refilled in place by the caller, in a second call: the current values count
+        fn = dreye.irr2flux if case["direction"] == "irr2flux" else dreye.flux2irr
+        spec_arg, wl_arg, kw, _ = _build_args(case, dreye)
+        wl_buf = np.array(wl_arg, dtype=float)
+        with calling(f"{case['direction']} (wavelength buffer reused)"):
+            fn(spec_arg, wl_buf, **kw)
+            wl_buf += 37.5
+            out2 = fn(spec_arg, wl_buf, **kw)
+        mag2 = np.asarray(out2.magnitude if dreye.has_units(out2) else out2, dtype=float)
+        c2 = dict(case, wl=(np.asarray(case["wl"], dtype=float) + 37.5).tolist())
+        spec2, wlb2 = _wl_broadcast(c2)
+        exp2 = oracle_flux(spec2 * factor, wlb2, case["prefix"]) if case["direction"] == "irr2flux" else oracle_irr(spec2 * factor, wlb2, case["prefix"])
+        check(np.all(np.abs(mag2 - exp2) <= _rel(case) * np.abs(exp2)), "value:stale-wavelengths",
+              f"second call with the wavelength array changed in place: got {np.ravel(mag2)[:3].tolist()} expected {np.ravel(exp2)[:3].tolist()}")
     return _labels(case)
 
 
